@@ -131,6 +131,185 @@ def scenarios(f, cs, did, init):
     return out
 
 
+class _Walk:
+    """Concrete path interpretation of one join-protocol function for one script of observed states (used when the
+    compare-exchanges sit in a retry loop, where per-node constant outcomes cannot describe a path)."""
+
+    def __init__(self, P, f, new, script, null_result=False):
+        from symword import Machine
+        self.f, self.new, self.script = f, new, list(script)
+        self.idx = 0
+        self.cas = {s.node.id: s for s in atomic_ops(f, F, "detach_state") if s.aop == "cas"}
+        self.res = {}
+        self.took = None
+        self.last_seen = None
+        self.events = []
+        isl = ds_load(f)
+        rd = {s.node.id for s, v in c01.state_stores(f) if v == c01.READY}
+        walk = self
+        # further events: accesses of the fiber argument's result, stores of another fiber's result (the copy into a joiner),
+        # any access of the fiber argument, calls that may switch
+        pd = f.params[0]["did"]
+        self.extra_ids = {}
+        for n in f.nodes:
+            if n.k == "MemberExpr" and n.arrow:
+                b = strip(n.kids[0])
+                if b is not None and b.k == "DeclRefExpr" and b.did == pd:
+                    self.extra_ids[n.id] = "touch-arg"
+        for l in f.loads_of(F, "result"):
+            if f.target_key(l.target)[3] == ("*", ("var", f.params[0]["name"], pd)):
+                self.extra_ids[l.node.id] = "read-arg-result"
+        for st in f.stores_to(F, "result"):
+            own = f.target_key(st.target)[3] == ("*", ("var", f.params[0]["name"], pd))
+            self.extra_ids[st.node.id] = "store-arg-result" if own else "store-other-result"
+        for c in stale.switch_calls(P, f):
+            if c.callee not in (SAW, COW):
+                self.extra_ids.setdefault(c.id, "may-switch")
+
+        class M(Machine):
+            def atom(m, n):
+                v = ext(n)
+                return v if v is not None else Machine.atom(m, n)
+
+            def exec_elem(m, n):
+                if n.id in walk.cas:
+                    st = walk.cas[n.id]
+                    e = strip(st.expected)
+                    loc = m.locate(e.kids[0]) if e is not None and e.k == "UnaryOperator" and e.op == "&" else None
+                    if loc is None:
+                        raise Unevaluable("expected operand of the compare-exchange is not a local")
+                    seen = walk.script[min(walk.idx, len(walk.script) - 1)]
+                    walk.idx += 1
+                    walk.events.append(("cas", n))
+                    walk.last_seen = seen
+                    try:
+                        if m.eval(st.value) != walk.new:
+                            walk.events.append(("bad-desired", n))
+                    except Unevaluable:
+                        walk.events.append(("bad-desired", n))
+                    if m.read(loc) == seen:
+                        walk.res[n.id] = 1
+                        if walk.took is None:
+                            walk.took = seen
+                        else:
+                            walk.events.append(("second-transition", n))
+                        # our own transition: from now on the state is `new` (terminal for the others' moves we model)
+                        walk.script = walk.script[:walk.idx] + [walk.new]
+                    else:
+                        walk.res[n.id] = 0
+                        m.write(loc, seen)
+                    return
+                if n.id in rd:
+                    walk.events.append(("ready", n))
+                if n.id in walk.extra_ids:
+                    walk.events.append((walk.extra_ids[n.id], n))
+                if n.k == "CallExpr" and (n.callee in (SAW, COW) or n.callee in c01.SCHED):
+                    walk.events.append(("park" if n.callee == SAW else "take" if n.callee == COW else "schedule", n))
+                Machine.exec_elem(m, n)
+
+        def ext(n):
+            if n.id in self.res:
+                return self.res[n.id]
+            if isl(n):
+                v = self.script[min(self.idx, len(self.script) - 1)]
+                self.idx += 1
+                return v
+            return None
+        self.m = M(f, P, ext)
+        self.m.param_values = True
+        if null_result:
+            for p in f.params:
+                if p["name"] == "result":
+                    self.m.vals[p["did"]] = 0
+
+    def run(self):
+        r = self.m.run("entry", lambda n: n.k == "ReturnStmt", max_blocks=400)
+        ret = None
+        if r is not None and r.kids:
+            try:
+                ret = self.m.eval(r.kids[0])
+            except Unevaluable:
+                ret = None
+        return ret
+
+
+def scripts(length=5):
+    """every chain of observed states of the given length (each state reachable from the previous one by the other parties' moves);
+    an observation is a plain read of detach_state or a compare-exchange on it"""
+    out = [[s0] for s0 in (NONE, WFJ, WTJ, DET)]
+    for _ in range(length - 1):
+        out = [c + [t] for c in out for t in later(c[-1])]
+    return out
+
+
+def protocol_walk(P, f, new, spec, nospec):
+    """Same obligations as protocol(), decided by interpreting each path concretely."""
+    n = 0
+    variants = [(sc, False) for sc in scripts()]
+    if any(p["name"] == "result" for p in f.params):
+        variants += [(sc, True) for sc in scripts()]
+    for sc, null_result in variants:
+        w = _Walk(P, f, new, sc, null_result)
+        try:
+            ret = w.run()
+        except Unevaluable as e:
+            raise AnalysisBroken("C04 %s: cannot interpret the compare-exchange loop for observed states %s: %s" % (f.name, [NAMES[x] for x in sc], e))
+        n += 1
+        desc = "observed states %s" % " -> ".join(NAMES[x] for x in sc)
+        kinds = [k for k, _ in w.events]
+        if "bad-desired" in kinds:
+            return "%s: a compare-exchange installs another value than %s" % (desc, NAMES[new]), f.loc
+        if "second-transition" in kinds:
+            return "%s: the state is moved twice by one call" % desc, f.loc
+        if w.took is not None and w.took not in spec:
+            return "%s: the state moves from %s to %s, which is not a legal transition here" % (desc, NAMES[w.took], NAMES[new]), f.loc
+        last = w.last_seen if w.last_seen is not None else sc[0]
+        want = spec[w.took] if w.took is not None else nospec(last)
+        if ("park" in kinds) != want["saw"]:
+            return "%s: parks (set_and_wait) = %s, expected %s" % (desc, "park" in kinds, want["saw"]), f.loc
+        if ("take" in kinds) != want["cow"] or ("schedule" in kinds) != want["cow"]:
+            return "%s: takes+schedules the other party = %s/%s, expected %s" % (desc, "take" in kinds, "schedule" in kinds, want["cow"]), f.loc
+        if want["cow"]:
+            order = [k for k in kinds if k in ("take", "ready", "schedule")]
+            if order[:3] != ["take", "ready", "schedule"]:
+                return "%s: the other party is handled in the order %s, expected take, ready, schedule" % (desc, order), f.loc
+        if want.get("ret") is not None and ret != want["ret"]:
+            return "%s: returns %s, expected %s" % (desc, ret, want["ret"]), f.loc
+        # result / no-touch / blocking rules on the same path
+        first_cas = min([i for i, (k, _) in enumerate(w.events) if k == "transition"] or [len(w.events)])
+        sched = [i for i, k in enumerate(kinds) if k == "schedule"]
+        woke = [i for i, k in enumerate(kinds) if k in ("schedule", "take")]
+        if f.name == "fiber_mark_completed":
+            st = [i for i, k in enumerate(kinds) if k == "store-arg-result"]
+            tr = [i for i, k in enumerate(kinds) if k == "cas"]
+            if tr and (not st or st[0] > tr[0]):
+                # a store skipped for a NULL return value is right only if the field is NULL then (creation + joiner empties its mailbox)
+                mb = mailbox_emptied(P) if (null_result and not st) else "x"
+                if mb is not None:
+                    return ("%s: the state transition precedes the store of the result" % desc) if mb == "x" else \
+                           ("%s: the result is published only when it is non-NULL, but the fiber's result field is not guaranteed to be NULL otherwise: %s" % (desc, mb)), f.loc
+            cp = [i for i, k in enumerate(kinds) if k == "store-other-result"]
+            if sched and (not cp or cp[0] > sched[0]):
+                return "%s: the waiting joiner is scheduled before the result was copied into it" % desc, f.loc
+        else:
+            rr = [i for i, k in enumerate(kinds) if k == "read-arg-result"]
+            tr = [i for i, k in enumerate(kinds) if k == "cas"]
+            if f.name in ("fiber_join", "fiber_tryjoin"):
+                if rr and w.took != WFJ:
+                    return "%s: f->result is read although this call did not take the finished fiber" % desc, f.loc
+                if w.took == WFJ and not rr and not null_result:
+                    return "%s: the finished fiber is taken but f->result is never read" % desc, f.loc
+                if rr and tr and rr[0] < tr[0]:
+                    return "%s: f->result is read before the state transition" % desc, f.loc
+                if rr and woke and rr[-1] > woke[0]:
+                    return "%s: f->result is read after f was woken (it may already be reclaimed)" % desc, f.loc
+            if sched and any(k == "touch-arg" for k in kinds[sched[0] + 1:]):
+                return "%s: the fiber is touched after it was woken" % desc, f.loc
+            if f.name == "fiber_tryjoin" and w.took is None and ("may-switch" in kinds or "park" in kinds or "take" in kinds):
+                return "%s: tryjoin can block although it did not take the fiber" % desc, f.loc
+    return None, n
+
+
 def protocol(f, new, spec, nospec):
     """spec: from-state -> dict(saw, cow, ret) for a transition made by f; nospec(last) -> dict for the no-transition outcome."""
     cs, did, init = cas_sites(f, new)
@@ -194,21 +373,47 @@ def run(ctx):
 
     nothing = lambda last: dict(saw=False, cow=False, ret=0)
 
-    def run_protocol(o, f, new, spec, nospec, extra=None, construct=""):
-        try:
-            bad, n = protocol(f, new, spec, nospec)
-            site = None
-            if bad is not None and n is not None and not isinstance(n, int):
-                site = n
-            if bad is None and extra is not None:
-                cs, did, init = cas_sites(f, new)
-                bad = extra(cs, did, init)
-            o.check(bad is None, "all observation sequences of the state (pre-read, first and second compare-exchange)", bad,
+    def run_protocol(o, f, new, spec, nospec, extra=None, construct="", struct=None):
+        """Two deciders for the same table.  The path interpreter (protocol_walk) executes every feasible path for every chain of observed
+        states and is exact whenever it can evaluate the function; the static decider (constant outcomes per node) is used when it cannot.
+        The interpreter applies only if every write of detach_state in f is a compare-exchange (the `cas` rule reports anything else)."""
+        import os
+        writes = atomic_ops(f, F, "detach_state")
+        plain = [st for st in f.stores_to(F, "detach_state") if st not in writes]
+        walk_ok, bad_walk = False, None
+        if writes and not plain and all(st.aop == "cas" for st in writes):
+            try:
+                bad_walk, _n = protocol_walk(P, f, new, spec, nospec)
+                walk_ok = True
+            except AnalysisBroken:
+                walk_ok = False
+        static_ok, bad_static, site = False, None, None
+        if not os.environ.get("VERIF_C04_WALK"):
+            try:
+                bad_static, n = protocol(f, new, spec, nospec)
+                if bad_static is not None and n is not None and not isinstance(n, int):
+                    site = n
+                if bad_static is None and extra is not None:
+                    cs, did, init = cas_sites(f, new)
+                    bad_static = extra(cs, did, init)
+                static_ok = True
+            except Shape as e:
+                if not walk_ok:
+                    if "not supported" in str(e):
+                        raise AnalysisBroken("C04 %s: %s" % (f.name, e))
+                    o.fail(str(e), site=f.loc, construct=construct)
+                    return
+        if walk_ok:
+            bad = bad_walk[0] if isinstance(bad_walk, tuple) else bad_walk
+            if bad is None and struct is not None:
+                bad = struct()
+            o.check(bad is None, "every chain of observed states (plain reads and compare-exchanges), every feasible path interpreted", bad,
+                    site=f.loc, construct=construct)
+        elif static_ok:
+            o.check(bad_static is None, "all observation sequences of the state (pre-read, first and second compare-exchange)", bad_static,
                     site=site or f.loc, construct=construct)
-        except Shape as e:
-            if "not supported" in str(e):
-                raise AnalysisBroken("C04 %s: %s" % (f.name, e))
-            o.fail(str(e), site=f.loc, construct=construct)
+        else:
+            raise AnalysisBroken("C04 %s: neither decider applies" % f.name)
 
     mc = P.fn("fiber_mark_completed")
     o = ctx.ob("complete", mc, "mark_completed stores the result, then moves NONE -> WAIT_FOR_JOINER and parks on join_info; if it observes WAIT_TO_JOIN "
@@ -246,8 +451,20 @@ def run(ctx):
             if not key_mentions(k1, lambda y: y[0] == "f" and y[2] == "join_info") or strip(a[2]).did != mc.params[0]["did"]:
                 bad = bad or "parks with `%s`" % c.text
         return bad
+    def mc_struct():
+        bad = None
+        rs = [s for s in mc.stores_to(F, "result")]
+        own = [s for s in rs if mc.target_key(s.target)[3] == ("*", ("var", mc.params[0]["name"], mc.params[0]["did"]))]
+        if own and not order_ge(own[0].order or "relaxed", "release"):
+            bad = bad or "result store order %s" % own[0].order
+        for c in mc.calls(SAW):
+            a = mc.args(c)
+            k1 = mc.key(a[1], resolve=True)
+            if not key_mentions(k1, lambda y: y[0] == "f" and y[2] == "join_info") or strip(mc.resolve(a[2]) or a[2]).did != mc.params[0]["did"]:
+                bad = bad or "parks with `%s`" % c.text
+        return bad
     run_protocol(o, mc, WFJ, {NONE: dict(saw=True, cow=False)},
-                 lambda last: dict(saw=False, cow=(last == WTJ)), mc_extra, "mark_completed protocol")
+                 lambda last: dict(saw=False, cow=(last == WTJ)), mc_extra, "mark_completed protocol", struct=mc_struct)
 
     j = P.fn("fiber_join")
     o = ctx.ob("join", j, "join moves NONE -> WAIT_TO_JOIN and parks on f->join_info with itself, then takes the result from its own mailbox; or moves "
@@ -265,7 +482,16 @@ def run(ctx):
             if not key_mentions(j.key(a[2], True), lambda y: y[0] == "f" and y[2] == "current_fiber"):
                 bad = bad or "parks `%s`, not the calling fiber" % a[2].text
         return bad
-    run_protocol(o, j, WTJ, {NONE: dict(saw=True, cow=False, ret=1), WFJ: dict(saw=False, cow=True, ret=1)}, nothing, j_extra, "join protocol")
+    def j_struct():
+        bad = None
+        for c in j.calls(SAW):
+            a = j.args(c)
+            if not key_mentions(j.key(a[1], True), lambda y: y[0] == "f" and y[2] == "join_info" and y[3] == ("*", ("var", "f", j.params[0]["did"]))):
+                bad = bad or "parks on `%s`" % a[1].text
+            if not key_mentions(j.key(a[2], True), lambda y: y[0] == "f" and y[2] == "current_fiber"):
+                bad = bad or "parks `%s`, not the calling fiber" % a[2].text
+        return bad
+    run_protocol(o, j, WTJ, {NONE: dict(saw=True, cow=False, ret=1), WFJ: dict(saw=False, cow=True, ret=1)}, nothing, j_extra, "join protocol", struct=j_struct)
 
     t = P.fn("fiber_tryjoin")
     o = ctx.ob("tryjoin", t, "tryjoin only moves WAIT_FOR_JOINER -> WAIT_TO_JOIN (then: read result, take+READY+schedule, SUCCESS); everything else ERROR "
